@@ -68,6 +68,8 @@ func (sw *SyntaxErrorWrapper) Error() string {
 type RuntimeErrorWrapper struct {
 	vm  *r.VM
 	err error
+	// call frames active at the moment the error was raised
+	trace []*r.CallFrame
 }
 
 func WrapRuntimeError(vm *r.VM, err error) error {
@@ -96,14 +98,16 @@ func WrapRuntimeError(vm *r.VM, err error) error {
 			}
 
 			return &RuntimeErrorWrapper{
-				vm:  vm,
-				err: errors.New(errContent),
+				vm:    vm,
+				err:   errors.New(errContent),
+				trace: vm.GetErrorTrace(),
 			}
 		}
 
 		return &RuntimeErrorWrapper{
-			vm:  vm,
-			err: realErr,
+			vm:    vm,
+			err:   realErr,
+			trace: vm.GetErrorTrace(),
 		}
 	}
 }
@@ -117,7 +121,7 @@ func (rw *RuntimeErrorWrapper) Error() string {
 		code = werr.Code
 	}
 
-	callStack := rw.vm.GetCallStack()
+	callStack := rw.trace
 	if len(callStack) > 0 {
 		// append head lines
 		headTrace := callStack[0]
